@@ -297,6 +297,7 @@ def run_case(case):
                     "default_is_other_var": str(a.default) != str(a.variable),
                     "source_guard_false": bool(st[6]),
                     "downstream_of_f3": key in downstream,
+                    "no_initial_value": str(a.variable) in symvals,
                     "run": ri,
                 }
                 if c is None:
